@@ -44,10 +44,12 @@ CLAIMED = {
          "keeps every earlier entry, SetLoaders replaces; each source-adding option closure (SetConfig, AddConfigLoader) is verified to "
          "append; Default installs exactly the command-line loader and a binder; loadConfigure invokes the loaders in the sequence of the "
          "ordering contract (files first as class 0/Order 0, the others in the order they were added), feeds every non-empty output "
-         "unchanged to Binder.SetConfig in that same order, and stops at the first error (ghost load/feed trace, loop invariant).",
+         "unchanged to Binder.SetConfig in that same order, and stops at the first error (ghost load/feed trace, loop invariant); the built-in "
+         "ViperBinder.SetConfig is proved to merge every document on top of the earlier ones (never to replace them) against a trusted "
+         "viper specification, and loadConfigure states what the binder holds afterwards ([binder-merged-in-feed-order]).",
          "DESIGN.md section 5 C15",
          "contract-based deductive verification (govc WP over go/ssa, z3/cvc5)",
-         "That feeding documents to viper.MergeConfig in order yields a deep merge where the last one wins and single-source keys stay "
+         "That viper.MergeConfig adds a document on top (and ReadConfig replaces) is the trusted model of the library (60_viper.spec); that merging in order yields a deep merge where the last one wins and single-source keys stay "
          "visible is a property of the third-party library (A-LIB), assumed, not proved; ArgsLoader's YAML rendering likewise. "
          "Configure is assumed wired with a non-nil binder and non-nil loaders (established by Default; not re-proved through options). " + TRUST),
 
@@ -113,7 +115,9 @@ CLAIMED = {
          "processors only on a populated component, AfterPropertiesSet only after all of them, Init after AfterPropertiesSet when present, "
          "after-init processors only after the init methods; each processor exactly once in slice order (loop invariants over the ghost "
          "traces); InitializeComponent reaches 'ready' on success; doCreateComponent populates strictly before initializing; Refresh creates "
-         "exactly the non-lazy definitions in ascending name order ([eager-all-created], [only-non-lazy-definitions]).",
+         "exactly the non-lazy definitions in ascending name order ([eager-all-created], [only-non-lazy-definitions]); population is complete: "
+         "every willing processor runs its properties stage ([every-willing-processor-populates]) and every injection point with candidates is "
+         "injected ([every-point-populated]).",
          "DESIGN.md section 5 C05",
          "contract-based deductive verification (govc WP over go/ssa, z3/cvc5)",
          "'Exactly once per start' holds per creation attempt (a failed lazy creation that is retried re-runs init methods); 'dependencies "
